@@ -133,11 +133,16 @@ def pair_cases(rng, n):
     start that does not: same local start, same number of hours"""
     from harness.specgen import DST_PAIRS
     out = []
-    for _ in range(n):
+    for i_ in range(n):
         za, zb, date = rng.choice(DST_PAIRS)
+        if rng.random() < 0.5:
+            # a zone whose offset is not a whole number of hours (UTC instants at :30 / :45) next to a whole-hour one
+            za = rng.choice(["Asia/Kolkata", "Asia/Kathmandu", "Australia/Adelaide", "America/St_Johns", "Australia/Lord_Howe", "Asia/Tehran"])
+            zb = rng.choice(["Europe/Paris", "UTC", "America/New_York", "Asia/Tokyo"])
+            date = rng.choice([(2025, 3, 28), (2025, 10, 3), (2025, 6, 11)])
         nh = rng.randint(14, 50)
         hh = rng.randrange(10, 24)
-        out.append({"za": za, "zb": zb, "start": [date[0], date[1], date[2], hh],
+        out.append({"za": za, "zb": zb, "start": [date[0], date[1], date[2], hh], "first_step_min": rng.choice([1, 1, 45, 90, 125]),
                     "va": [float(rng.randint(0, 90)) for _ in range(nh)], "vb": [float(rng.randint(0, 90)) for _ in range(nh)]})
     return out
 
@@ -159,7 +164,10 @@ def run_pair(case):
     with watchdog(90):
         sv = Server.from_defaults("sv", storage=Storage.from_defaults("st"))
         job = Job.from_defaults("job", server=sv)
-        uj = UsageJourney("uj", uj_steps=[UsageJourneyStep("step", user_time_spent=SourceValue(1 * u.min), jobs=[job])])
+        job2 = Job.from_defaults("job2", server=sv)
+        fsm = case.get("first_step_min", 1)
+        uj = UsageJourney("uj", uj_steps=[UsageJourneyStep("step", user_time_spent=SourceValue(fsm * u.min), jobs=[job]),
+                                          UsageJourneyStep("step2", user_time_spent=SourceValue(1 * u.min), jobs=[job2])])
         ups = []
         for tag, zone, vals in (("a", case["za"], case["va"]), ("b", case["zb"], case["vb"])):
             idx = pd.date_range(start=datetime(*case["start"]), periods=len(vals), freq="h")
@@ -170,12 +178,18 @@ def run_pair(case):
         System("sys", usage_patterns=ups)
         utc = [canon(p.utc_hourly_usage_journey_starts) for p in ups]
         across = canon(job.hourly_occurrences_across_usage_patterns)
+        across2 = canon(job2.hourly_occurrences_across_usage_patterns)
     expected = {}
     for c in utc:
         for k, v in zip(c["ks"], c["vs"]):
             expected[k] = expected.get(k, 0.0) + v
     got = dict(zip(across["ks"], across["vs"]))
     bad = [k for k in sorted(set(expected) | set(got)) if abs(expected.get(k, 0.0) - got.get(k, 0.0)) > 1e-9 * max(1.0, abs(expected.get(k, 0.0)))]
+    # the job of the second step: every instant moved by the whole hours spent in the first step (minutes of the instant kept)
+    sh = 3600 * (fsm // 60)
+    expected2 = {k + sh: v for k, v in expected.items()}
+    got2 = dict(zip(across2["ks"], across2["vs"]))
+    bad += [k for k in sorted(set(expected2) | set(got2)) if abs(expected2.get(k, 0.0) - got2.get(k, 0.0)) > 1e-9 * max(1.0, abs(expected2.get(k, 0.0)))]
     # each UTC series against plain pytz arithmetic
     verdicts = []
     for zone, vals, c in ((case["za"], case["va"], utc[0]), (case["zb"], case["vb"], utc[1])):
